@@ -110,7 +110,7 @@ def install(prog):
         s = to_path(a[0]).to_str()
         return some(s) if callee.endswith('to_str') else s
 
-    @B('re:^<(std::path::Display|Display|Cow|std::borrow::Cow|OsStr|OsString) as ToString>::to_string$', 'OsStr::to_string_lossy', 'OsStr::to_str', 'OsString::into_string')
+    @B('re:^<(std::path::Display|Display|Cow|std::borrow::Cow|OsStr|OsString) as ToString>::to_string$', 'OsStr::to_string_lossy', 'OsStr::to_str')
     def b_display_to_string(ctx, a, callee):
         v = D(a[0])
         if type(v) is PathV:
